@@ -125,6 +125,9 @@ def check(ctx, replay=None):
     # (Loader.tla) with hook H2 compared against a fresh compilation in the installing process
     import loaderfam
     loaderfam.installed_programs(ctx, "installed_differs", "the program handed to the kernel is not the compiled one", n=96 if th else 40)
+    # ... and in histories of the whole interface (Hist.tla): a load that follows compilations, dumps and loads of sibling policies
+    import histfam
+    histfam.run(ctx)
     cov["rule"] = ("policies of the CompileScopes scopes (many, rich, allops, groups2, single, boundary, klong = programs of 250..700 instructions) concretised over "
                    "the 14 harmless probe syscalls of x86_64 with seeded argument positions and word embeddings; one fresh child per policy through the real "
                    "LoadFilter with flags in {0,tsync,log,tsync|log} and NoNewPrivs on/off; raw probes with 64-bit registers, expected observation (errno N / process killed by SIGSYS / SIGSYS delivered / "
